@@ -15,7 +15,17 @@ TRUSTED = ['the model carries the interpreter\'s int() digit limit explicitly; P
 
 def classify(x, err):
     if err == 'RecursionError':
-        return 'nesting-depth-over-recursion-limit'
+        # the known finding is one Python frame per level of branch nesting: only inputs nested about as deep as the interpreter's
+        # recursion limit belong to it; a RecursionError on a shallow input (e.g. a long unbranched chain) is a new violation
+        depth = best = 0
+        for c in x:
+            if c == '(':
+                depth += 1
+                best = max(best, depth)
+            elif c == ')':
+                depth -= 1
+        import sys
+        return 'nesting-depth-over-recursion-limit' if best >= sys.getrecursionlimit() - 150 else None
     if err == 'ValueError' and max((len(m) for m in re.findall(r'\d+', x)), default=0) > 4300:
         return 'digit-run-over-int-limit'
     if err == 'ValueError' and any(ord(c) > 127 for c in x) and max((len(m) for m in re.findall(r'\d+', x)), default=0) > 4300:
@@ -85,6 +95,39 @@ def run(rep, tier, seed, b):
         if oi == 'EncoderError' or len(it[1]) > 20:
             rep.nontriv(it[1][:200] + str(it[2]) + str(it[3]))
     rep.extra['slowest_call_s'] = round(slow, 3)
+    # the encoder after a history: the caller keeps (and edits, empties) the dict it passed to set_semantic_constraints, or a set call was rejected;
+    # whatever table is in force, encoder() returns or raises EncoderError - nothing else (a KeyError from a table that lost its '?' entry, ...)
+    import hist_common as H
+    probes = ['[Xe](F)(F)(F)F', '[Na+].[Cl-]', '[C+2]', 'c1cc[se]c1', 'C[Si](C)(C)C', 'O=[U]=O', '[Fe+3]', 'C[N+](C)(C)C', 'CS(=O)(=O)C', 'B(F)(F)F', '[13CH4]', 'c1ccccc1[O-]']
+    for _ in range(60 if tier == 'quick' else 1200):
+        d0 = H.random_dict(rng, valid=True)
+        for kv in d0:
+            if isinstance(kv[1], bool):
+                kv[1] = int(kv[1])
+        ops = [['new', d0], ['set', ['held', 0]]] + [['enc', x, True, False] for x in rng.sample(probes, 2)]
+        k = rng.random()
+        if k < 0.4:
+            ops.append(['mut', 0, ['del', '?']])
+        elif k < 0.6:
+            ops.append(['mut', 0, ['clear']])
+        elif k < 0.8:
+            ops.append(['mut', 0, ['setitem', rng.choice(['?', 'C', 'N', 'Xe']), rng.choice([None, -1, 0, 9])]])
+        else:
+            ops += [['new', H.random_dict(rng, valid=False)], ['set', ['held', 1]]]
+        tail = [['enc', x, rng.random() < 0.8, rng.random() < 0.3] for x in probes + E.gen_smiles_cases(rng, 3, mutate=0.2, maxlen=40)]
+        im = H.impl_run(ops + tail)
+        rep.impl_traces += 1
+        if not isinstance(im, list):
+            rep.oracle_failures.append({'clause': 'encoder returns or raises EncoderError; no other exception type escapes (history run crashed)', 'input': {'ops': ops + tail}, 'impl': str(im)[:300], 'sequence': True})
+            continue
+        for op, o in zip(tail, im[len(ops):]):
+            rep.evaluations += 1
+            t = (o or {}).get('trans') or {}
+            oi = 'returns' if 'ok' in t else t.get('err')
+            rep.count('after a history: ' + str(oi))
+            if oi not in ('returns', 'EncoderError'):
+                rep.oracle_failures.append({'clause': 'encoder returns or raises EncoderError; no other exception type escapes (after the caller edited the dict it had passed to set_semantic_constraints, or after a rejected set call)',
+                                            'input': {'ops': ops + [op]}, 'impl': oi, 'klass': classify(op[1], oi), 'sequence': True})
     for it in items[:3] + items[-2:]:
         rep.sample({'smiles': it[1][:100], 'strict': it[2], 'attribute': it[3]})
     rep.rule = ('dataset / re-spelt / mutated SMILES broken once or twice (deletions, insertions of brackets, digits, %%nn, bonds, dots, stereo marks, aromatic symbols, non-ASCII), '
